@@ -842,6 +842,34 @@ func (g c14Gen) random(id string, synced bool, maxLen int, timed bool) *c14Case 
 }
 
 // the witnesses of the repaired findings, as ordinary cases of the main stream
+// c14LifetimeUnderPolling: a lifetime runs from the moment a decision was STORED.  A cached
+// (now stale) decision that is asked for again and again at intervals much shorter than the
+// lifetime must still give way to the fresh decision once the lifetime is over.  Real time,
+// generous margins: lifetime 300 ms, polling every 40 ms, the answer at >= 900 ms must be fresh.
+func c14LifetimeUnderPolling(c *Ctx) {
+	for _, synced := range []bool{false, true} {
+		w, under, _ := c14NewModel(false, synced)
+		_ = under
+		w.SetExpireTime(300 * time.Millisecond)
+		req := []interface{}{"carol", "data1", "read"}
+		first, _ := w.Enforce(req...) // false: carol has no rule; cached
+		// a policy change that the wrapper does not intercept (named variant: F31 territory on the
+		// plain wrapper is irrelevant here, only the lifetime is under test)
+		_, _ = w.AddNamedPolicy("p", "carol", "data1", "read")
+		start := time.Now()
+		var last bool
+		for time.Since(start) < 900*time.Millisecond {
+			last, _ = w.Enforce(req...)
+			time.Sleep(40 * time.Millisecond)
+		}
+		last, _ = w.Enforce(req...)
+		if first || !last {
+			c.Direct(fmt.Sprintf("c14.lifetime.polling.%v", synced), fmt.Sprintf("lifetime 300 ms: a decision cached before the policy changed is still served %d ms later when it is asked for every 40 ms (first=%v last=%v): hits must not extend the lifetime", time.Since(start).Milliseconds(), first, last), "SetExpireTime(300ms); Enforce(carol,data1,read); AddNamedPolicy(p,carol,data1,read); poll")
+		}
+		c.Count("lifetime-under-polling")
+	}
+}
+
 func c14Witnesses() []*c14Case {
 	r1 := []string{"alice", "data1", "read"}
 	r2 := []string{"bob", "data2", "write"}
@@ -908,6 +936,12 @@ func c14Witnesses() []*c14Case {
 		ops4 := []c14Op{{kind: "ttl", d: c14TTL}, e(nr), va("add", []string{"x", "y"}), e(nr), {kind: "sleep"}, e(nr), va("rm", []string{"x", "y"}), e(nr), {kind: "sleep"}, e(nr)}
 		out = append(out, &c14Case{id: "c14.w.ttl-expiry-error." + v, synced: synced, probes: c14Probes(focus),
 			ops: c14Finish(ops4, focus), timed: true, tag: "witness"})
+		// a lifetime is counted from the moment the decision was stored: hits in between must not
+		// extend it (250 ms lifetime, hits after 80 and 160 ms, the next question after 560 ms)
+		sleep := c14Op{kind: "sleep"}
+		ops5 := []c14Op{{kind: "ttl", d: 250000}, e(nr), va("add", nr), va("add", []string{"x", "y"}), sleep, e(nr), sleep, e(nr), sleep, sleep, sleep, sleep, sleep, e(nr)}
+		out = append(out, &c14Case{id: "c14.w.ttl-not-extended-by-hits." + v, synced: synced, probes: c14Probes(focus),
+			ops: c14Finish(ops5, focus), timed: true, tag: "witness"})
 		ops2 := []c14Op{{kind: "ttl", d: c14TTL}, e(nr), e(nr), {kind: "ttl", d: 0}, {kind: "sleep"}, e(nr), e(r1), {kind: "ttl", d: -1000}, e(r2), {kind: "sleep"}, e(r1), e(r2)}
 		out = append(out, &c14Case{id: "c14.w.ttl-per-item." + v, synced: synced, probes: c14Probes([][]string{r1, r2, nr}),
 			ops: c14Finish(ops2, [][]string{r1, r2, nr}), timed: true, tag: "witness"})
@@ -1091,6 +1125,7 @@ func init() {
 			"Direct predicate: every wrapper answer is compared with the embedded enforcer (an uncached twin in the same state) whenever a theorem says they agree: request without context after listed invalidating operations only (C14_transparent_acl_general, C14_transparent_cx), "+
 			"or ANY request while no mutator was called since the cache was last empty (C14_transparent_quiet). "+
 			"Histories in which two different tuples have one cache key (F21 and its variants for the context text) are kept out. Non-trivial = some cacheable request is enforced at least twice (a potential cache hit); distinct by case id.", exLen, nRandom, maxLen, nTimed, nCx)
+		c14LifetimeUnderPolling(c)
 		var cases []*c14Case
 		cases = append(cases, c14Witnesses()...)
 		cases = append(cases, c14Exhaustive(exLen)...)
